@@ -4,12 +4,14 @@ The event is written after the call returns or raises (the linearization point o
 sequential library is the call's return).  Nothing here computes an expected value: the
 judgement is entirely in the TLA+ trace specification.
 """
+import contextlib
 import copy
 import json
 import math
 import sys
 
 from project import KINDS, Refs, encode, encode_model, fnum, leaf, load_models
+import stages
 
 ABSENT = object()  # argument not passed at all
 
@@ -145,10 +147,14 @@ class Session:
         for k in ("ranks", "scores"):
             if isinstance(kw.get(k), list):
                 kw[k] = list(kw[k])
-        if positional:
-            kind, val, exc = self.outcome_of(lambda: mh.m.rate(teams, kw.get("ranks"), kw.get("scores"), kw.get("tau"), kw.get("limit_sigma")))
-        else:
-            kind, val, exc = self.outcome_of(lambda: mh.m.rate(teams, **kw))
+        stage_log = []
+        with (stages.observe(mh.m, stage_log) if getattr(self, "stages_on", False) else contextlib.nullcontext()):
+            if positional:
+                kind, val, exc = self.outcome_of(lambda: mh.m.rate(teams, kw.get("ranks"), kw.get("scores"), kw.get("tau"), kw.get("limit_sigma")))
+            else:
+                kind, val, exc = self.outcome_of(lambda: mh.m.rate(teams, **kw))
+        if getattr(self, "stages_on", False):
+            ev["stages"] = stages.to_records(stage_log, teams)
         ev["out"] = {"kind": kind, "exc": exc, "value": self.enc(val)}
         ev["after"] = self.enc(teams)
         ev["ranks_after"] = self.enc(kw.get("ranks"))
